@@ -140,7 +140,8 @@ META = dict(
                 "link (call_preserves_wf), calls without defaults: frame invisible from every existing scope with no hypothesis on the evaluator "
                 "(call_frame_invisible_noDefaults), setValue / setLocalValue for every name and outcome (writes_preserve_wf), the control-flow "
                 "combinators preserve every invariant their parts preserve (control_flow_preserves_invariants), and eval itself preserves ScopesWF on "
-                "the fragment Calm (constants, numbers, plain reads, let, sequences, guards, if/elif/else; eval_preserves_wf_calm); read_after_write_path on setValue / getValue themselves for any nesting (containerWalk "
+                "the fragment Calm (straight-line code with if: constants, numbers, plain reads, arithmetic, plain assignments v := e, let, "
+                "sequences, guards, if/elif/else; eval_preserves_wf_calm); read_after_write_path on setValue / getValue themselves for any nesting (containerWalk "
                 "and containerGet reach the same cell, fieldKey = the key setValue writes, negative list indices) and "
                 "prims_by_value_containers_by_ref (a write through one name is read through any alias reaching the same cell); "
                 "len_add_del_concat_model: len / add / add-at-index / del / del(map) / concat refine an independent list / finite-map Spec, every "
@@ -149,8 +150,9 @@ META = dict(
                 "new_has_all_template_props (string keys of all templates reachable through super lists, cyclic templates cut as f42b440 does; "
                 "own non-function property wins), method_this, init_once_with_args, init_once_with_args_and_supers, init_reads_super, "
                 "addSuperClasses_cycle."),
-    level_note=("Not proved: `eval preserves ScopesWF` beyond the fragment Calm (eval_preserves_wf_calm) — assignments, operators, loops, try, "
-                "access paths, calls, declarations are not in that induction yet; that eval never touches an unreferenced root scope (so the default-evaluation hypothesis of the frame theorems is discharged per "
+    level_note=("Not proved: `eval preserves ScopesWF` beyond the fragment Calm (eval_preserves_wf_calm) — comparison / boolean / string "
+                "operators, literals of lists and maps, destructuring and path assignments, loops, try, access paths, calls, declarations are "
+                "not in that induction yet; that eval never touches an unreferenced root scope (so the default-evaluation hypothesis of the frame theorems is discharged per "
                 "example, not in general); inherited VALUES and later-super-wins only per copy step; bindParamNode propagates a setValue error "
                 "where Go drops it (unreachable for parser-made names). Hypotheses: Float == reflexive on integer keys (Lean's Float is "
                 "opaque); object theorems are about string keys, templates other than the fresh object, list slot 0 = nil slice; no "
